@@ -358,10 +358,19 @@ def table6(ctx) -> List[Ob]:
 
     assigns = [s for s in A.walk_no_nested(bbx) if isinstance(s, ast.Assign) and any(isinstance(t, ast.Name) and t.id == jt.id for t in s.targets)]
     seen = set()
+    # `t = A if c else B` is the two-armed statement `if c: t = A else: t = B`
+    cases = []
     for s in assigns:
-        txt = A.unparse(s.value)
-        guards = _guard_conditions(bbx, s)
-        key = "successors := " + A.alpha_key(s.value)
+        if isinstance(s.value, ast.IfExp):
+            ct = A.unparse(s.value.test)
+            cases.append((s, s.value.body, [(ct, True)]))
+            cases.append((s, s.value.orelse, [(ct, False)]))
+        else:
+            cases.append((s, s.value, []))
+    for s, val_, extra in cases:
+        txt = A.unparse(val_)
+        guards = extra + _guard_conditions(bbx, s)
+        key = "successors := " + A.alpha_key(val_)
         where = ctx.where(bb, s)
         member = [(t, pol) for t, pol in guards if "jump_insts" in t]
         if "jump_insts[" in txt and member and ((" not in " in member[0][0]) != member[0][1]) and len(guards) == 1:
